@@ -1,8 +1,10 @@
 """C18 — the dependency-GIR cache never serves stale or torn data."""
 import ast
+import re
 
 from ..core import AnalysisError
 from .. import pyfront as P
+from .. import gsa
 from .. import pycfg
 
 EXPLANATION = ('Pairing/ordering/who-may-write rules over giscanner/cachestore.py and its call sites: entries are '
@@ -34,43 +36,33 @@ def check(ctx):
 
     # --------------------------------------------------------------- R1 atomic publish
     r1 = ctx.rule('R1', 'entries and version stamp are published only by moving a closed mkstemp file; nobody opens them for writing', floor=8)
-    for fn, what in ((store, 'cache entry'), (ccv, 'version stamp')):
-        cfg = pycfg.CFG(fn)
-        mk = [(t, v, st) for t, v, st in P.stores_in(fn) if isinstance(v, ast.Call) and P.call_name(v) == 'tempfile.mkstemp']
-        if len(mk) != 1 or not isinstance(mk[0][2].targets[0], ast.Tuple):
-            # stores_in splits tuple targets only for tuple values; handle `a, b = mkstemp()`
-            mk = [(n.targets[0], n.value, n) for n in P.walk_no_nested(fn) if isinstance(n, ast.Assign)
-                  and isinstance(n.value, ast.Call) and P.call_name(n.value) == 'tempfile.mkstemp']
-        if len(mk) != 1 or not isinstance(mk[0][0], ast.Tuple) or len(mk[0][0].elts) != 2:
-            raise AnalysisError('%s: `fd, name = tempfile.mkstemp(...)` not found' % fn.name)
-        fdv, namev = [e.id for e in mk[0][0].elts]
-        moves = [c for c in P.calls_in(fn) if P.call_name(c) in ('shutil.move', 'os.rename', 'os.replace')]
-        r1.check(len(moves) == 1 and P.src(moves[0].args[0]) == namev, '%s: published by move of the temp file' % what, rel, fn.lineno,
-                 '%s is not published by a single move/rename of the mkstemp file: %s' % (what, [P.src(c) for c in moves]),
-                 detail=[P.src(c) for c in moves])
-        # writer: with os.fdopen(fd, mode) as f: ... ; closed (with-block ended) before move
-        withs = [n for n in P.walk_no_nested(fn) if isinstance(n, ast.With) and any(
-            isinstance(it.context_expr, ast.Call) and P.call_name(it.context_expr) == 'os.fdopen' and
-            P.src(it.context_expr.args[0]) == fdv for it in n.items)]
-        r1.check(len(withs) == 1, '%s: temp file written inside `with os.fdopen(fd)`' % what, rel, fn.lineno,
-                 'temporary file is not written through a with-block that closes it')
-        if withs and moves:
-            w = withs[0]
-            mv_stmt = P.enclosing_stmt(moves[0])
-            inside = any(mv_stmt is x for x in ast.walk(w))
-            dom = cfg.dominates(w.items[0].context_expr, cfg.node_of(moves[0]))
-            r1.check(not inside and dom, '%s: written and closed before the move' % what, rel, mv_stmt.lineno,
-                     'the move is inside the with-block or not dominated by it: a reader could see a partially written file')
-            # the data written is the payload
-            writes = [c for c in ast.walk(w) if isinstance(c, ast.Call) and P.call_name(c) in ('pickle.dump',) or
-                      (isinstance(c, ast.Call) and isinstance(c.func, ast.Attribute) and c.func.attr == 'write')]
-            r1.check(len(writes) == 1, '%s: single payload write' % what, rel, w.lineno, 'payload writes: %s' % [P.src(c) for c in writes])
-        # destination of the move is the entry / stamp path
-        if moves:
-            dst = P.src(moves[0].args[1])
-            defs = [P.src(v) for t, v, st in P.stores_in(fn) if isinstance(t, ast.Name) and t.id == dst]
-            exp = 'self._get_filename(filename)' if fn is store else 'os.path.join(self._directory, _CACHE_VERSION_FILENAME)'
-            r1.check(defs == [exp], '%s: move destination' % what, rel, moves[0].lineno, 'destination %s = %s' % (dst, defs))
+    OPQ = ('_cache_is_valid', '_get_filename', '_remove_filename', '_clean')
+    for qn, what in (('store', 'cache entry'), ('_check_cache_version', 'version stamp')):
+        S = gsa.summarise(ctx, 'cachestore', 'CacheStore.' + qn, opaque=OPQ)
+        fn = S.func
+        calls = [e for e in S.effects if e.kind == 'call']
+        mk = [e for e in calls if e.target == 'tempfile.mkstemp']
+        if len(mk) != 1:
+            raise AnalysisError('%s: one tempfile.mkstemp(...) call expected, found %d' % (qn, len(mk)))
+        TMP = mk[0].value
+        moves = [e for e in calls if e.target in ('shutil.move', 'os.rename', 'os.replace')]
+        r1.check(len(moves) == 1 and moves[0].args and moves[0].args[0] == TMP + '[1]', '%s: published by move of the temp file' % what, rel, fn.lineno,
+                 '%s is not published by a single move/rename of the mkstemp file: %s' % (what, [e.value[:100] for e in moves]), detail=[e.value[:100] for e in moves])
+        FD = 'os.fdopen(%s[0], ' % TMP
+        writes = [e for e in calls if e.target == 'pickle.dump' or e.target.endswith('.write')]
+        inwith = [e for e in writes if any(w_.startswith(FD) for w_ in e.withs)]
+        r1.check(len(inwith) >= 1 and len(inwith) == len(writes), '%s: temp file written inside `with os.fdopen(fd)`' % what, rel, fn.lineno,
+                 'temporary file is not written through a with-block that closes it: %s' % [(e.value[:60], e.withs) for e in writes])
+        if inwith and moves:
+            mv = moves[0]
+            r1.check(not any(w_.startswith(FD) for w_ in mv.withs) and all(e.seq < mv.seq for e in inwith) and gsa.implies(mv.cond, gsa.cond_any(inwith)),
+                     '%s: written and closed before the move' % what, rel, mv.line,
+                     'the move is inside the with-block or not preceded by it: a reader could see a partially written file')
+            r1.check(len(inwith) == 1 and (FD in inwith[0].value), '%s: single payload write' % what, rel, inwith[0].line, 'payload writes: %s' % [e.value[:80] for e in writes])
+        if moves and len(moves[0].args) > 1:
+            dst = moves[0].args[1]
+            exp = 'self._get_filename(%s)' % S.P(1) if qn == 'store' else 'os.path.join(self._directory, _CACHE_VERSION_FILENAME)'
+            r1.check(dst == exp, '%s: move destination' % what, rel, moves[0].line, 'destination is %s, expected %s' % (dst, exp))
     # who may open for writing: every open()/os.open/fdopen in cachestore with a write mode must be fdopen of an mkstemp fd
     opens = []
     for n in ast.walk(m.tree):
@@ -102,161 +94,142 @@ def check(ctx):
 
     # --------------------------------------------------------------- R2 decide and read the same file; comparator
     r2 = ctx.rule('R2', 'freshness decided on the open file that is unpickled; full-resolution mtimes; older-than-source rejected', floor=6)
-    # in load: fd = open(store_filename, 'rb'); with fd: valid(...) ; pickle.load(fd)
-    opn = [(t, v, st) for t, v, st in P.stores_in(load) if isinstance(v, ast.Call) and P.call_name(v) == 'open']
-    if len(opn) != 1 or not isinstance(opn[0][0], ast.Name):
-        raise AnalysisError('load: `fd = open(...)` not found')
-    fdn = opn[0][0].id
-    pl = [c for c in P.calls_in(load) if P.call_name(c) == 'pickle.load']
-    if len(pl) != 1:
-        raise AnalysisError('load: pickle.load call not found')
-    r2.check(P.src(pl[0].args[0]) == fdn, 'unpickles the opened file', rel, pl[0].lineno, 'pickle.load reads %s' % P.src(pl[0].args[0]))
-    vcalls = [c for c in P.calls_in(load) if P.call_name(c) == 'self._cache_is_valid']
+    LD = gsa.summarise(ctx, 'cachestore', 'CacheStore.load', opaque=OPQ)
+    load = LD.func
+    lc = [e for e in LD.effects if e.kind == 'call']
+    pl = [e for e in lc if e.target == 'pickle.load']
+    opn = [e for e in lc if e.target == 'open']
+    if len(pl) != 1 or len(opn) != 1:
+        raise AnalysisError('load: one open(...) and one pickle.load(...) expected (found %d / %d)' % (len(opn), len(pl)))
+    OPENED = opn[0].value
+    r2.check(pl[0].args == [OPENED], 'unpickles the opened file', rel, pl[0].line, 'pickle.load reads %s, the file opened is %s' % (pl[0].args, OPENED))
+    vcalls = [e for e in lc if e.target == 'self._cache_is_valid']
     if len(vcalls) != 1:
         raise AnalysisError('load: call to _cache_is_valid not found')
     vc = vcalls[0]
-    cfg = pycfg.CFG(load)
-    r2.check(cfg.dominates(cfg.node_of(vc), cfg.node_of(pl[0])), 'validity check before unpickling', rel, vc.lineno,
-             'pickle.load is reachable without the freshness check')
-    # the return None on invalid
-    gs = [x for x in P.guards(pl[0]) if x.kind in ('if', 'early')]
-    r2.check(any('_cache_is_valid' in x.text() and ((x.kind == 'early' and x.text().startswith('not (not')) or
-                                                      (x.kind == 'if' and not x.text().startswith('not'))) for x in gs),
-             'invalid entry not unpickled', rel, pl[0].lineno, 'guards of pickle.load: %s' % [x.text() for x in gs],
-             detail=[x.text() for x in gs])
-    first_arg = P.src(vc.args[0]) if vc.args else ''
-    uses_fd = fdn in P.names_in(vc.args[0]) if vc.args else False
-    # how does _cache_is_valid obtain the store mtime from its first parameter?
-    vparams = [a.arg for a in valid.args.args if a.arg != 'self']
-    stat_calls = [c for c in P.calls_in(valid) if P.call_name(c) in ('os.stat', 'os.fstat', 'os.path.getmtime', 'os.lstat')]
-    store_stats = [c for c in stat_calls if c.args and P.src(c.args[0]) == vparams[0]]
-    src_stats = [c for c in stat_calls if c.args and P.src(c.args[0]) == vparams[1]]
-    r2.check(uses_fd and len(store_stats) == 1 and P.call_name(store_stats[0]) in ('os.stat', 'os.fstat'),
-             'load: freshness of the open file, not of the path', rel, vc.lineno,
+    VALID = r'^self\._cache_is_valid\('
+    r2.check(vc.seq < pl[0].seq and gsa.implies(pl[0].cond, vc.cond), 'validity check before unpickling', rel, vc.line, 'pickle.load is reachable without the freshness check')
+    r2.check(gsa.impossible(LD, pl[0], [(VALID, False)]) and gsa.allowed(LD, pl[0], [(VALID, True), (r'^@except', False), (r' is None$', False)]), 'invalid entry not unpickled', rel, pl[0].line,
+             'pickle.load is reached when %s' % pl[0].when()[:200], detail=pl[0].when()[:200])
+    first_arg = vc.args[0] if vc.args else ''
+    uses_fd = OPENED in first_arg
+    valid = py.func('cachestore', 'CacheStore._cache_is_valid')
+    CV = gsa.summarise(ctx, 'cachestore', 'CacheStore._cache_is_valid', inline_only=())
+    vparams = [a_ for a_ in CV.params if a_ != 'self']
+    stat_calls = [e for e in CV.effects if e.kind == 'call' and e.target in ('os.stat', 'os.fstat', 'os.path.getmtime', 'os.lstat')]
+    store_stats = [e for e in stat_calls if e.args and e.args[0] == vparams[0]]
+    r2.check(uses_fd and len(store_stats) >= 1 and all(e.target in ('os.stat', 'os.fstat') for e in store_stats),
+             'load: freshness of the open file, not of the path', rel, vc.line,
              'load() opens the entry and then decides freshness by stat()ing the PATH (%s): if another process renames a '
              'fresh entry into place between open() and stat(), the stale pickle that is already open is accepted '
              'and returned. The decision must be taken on the open descriptor (fstat).' % first_arg,
              detail={'validity argument': first_arg})
     # comparator
-    rets = [n for n in P.walk_no_nested(valid) if isinstance(n, ast.Return)]
-    cmp_ret = [n for n in rets if isinstance(n.value, ast.Compare)]
-    ok = False
-    full = False
+    cmp_ret = [(g, n) for g, n in CV.returns if isinstance(n, ast.Compare) and len(n.ops) == 1]
     if len(cmp_ret) == 1:
-        c = cmp_ret[0].value
-        defs = P.local_defs(valid)
-
-        def resolve(e):
-            if isinstance(e, ast.Name) and e.id in defs and len(defs[e.id]) == 1 and defs[e.id][0] is not None:
-                return defs[e.id][0]
-            return e
-        left, right = resolve(c.left), resolve(c.comparators[0])
+        c = cmp_ret[0][1]
 
         def side(e):
-            # returns (which file, resolution)
             if isinstance(e, ast.Attribute) and e.attr in ('st_mtime', 'st_mtime_ns') and isinstance(e.value, ast.Call):
-                which = P.src(e.value.args[0]) if e.value.args else '?'
+                which = gsa._unparse(e.value.args[0]) if e.value.args else '?'
                 return which, e.attr
             if isinstance(e, ast.Call) and P.call_name(e) == 'os.path.getmtime':
-                return P.src(e.args[0]), 'st_mtime'
-            return P.src(e), 'other'
-        (lw, lr), (rw, rr) = side(left), side(right)
+                return gsa._unparse(e.args[0]), 'st_mtime'
+            return gsa._unparse(e), 'other'
+        (lw, lr), (rw, rr) = side(c.left), side(c.comparators[0])
         op = type(c.ops[0]).__name__
+        ok = False
         if lw == vparams[0] and rw == vparams[1]:
             ok = op in ('GtE', 'Gt')
         elif lw == vparams[1] and rw == vparams[0]:
             ok = op in ('LtE', 'Lt')
         full = lr == rr and lr in ('st_mtime', 'st_mtime_ns')
-        r2.check(ok, 'entry older than its source is invalid', rel, cmp_ret[0].lineno,
-                 'validity is `%s`: does not require entry mtime >= source mtime' % P.src(c), detail=P.src(c))
-        r2.check(full, 'full-resolution modification times', rel, cmp_ret[0].lineno,
+        r2.check(ok, 'entry older than its source is invalid', rel, valid.lineno,
+                 'validity is `%s`: does not require entry mtime >= source mtime' % gsa._unparse(c), detail=gsa._unparse(c))
+        r2.check(full, 'full-resolution modification times', rel, valid.lineno,
                  'modification times are compared as %s / %s: anything coarser than st_mtime (e.g. stat()[ST_MTIME], int()) '
                  'accepts an entry written in the same second before the source changed' % (lr, rr), detail=[lr, rr])
     else:
         r2.fail('freshness comparison', rel, valid.lineno, 'no single mtime comparison returned by _cache_is_valid')
-    others = [P.src(n.value) for n in rets if not isinstance(n.value, ast.Compare)]
+    others = sorted(set(gsa._unparse(n) for g, n in CV.returns if not isinstance(n, ast.Compare)))
     r2.check(others == ['False'], 'missing entry is invalid', rel, valid.lineno, 'other returns of _cache_is_valid: %s' % others)
-    # no rounding wrappers around the mtimes
     for c in ast.walk(valid):
         if isinstance(c, ast.Call) and P.call_name(c) in ('int', 'round', 'math.floor', 'math.trunc'):
             r2.fail('full-resolution modification times', rel, c.lineno, 'mtime is rounded: %s' % P.src(c))
 
     # --------------------------------------------------------------- R3 failure discipline
     r3 = ctx.rule('R3', 'any unpickling failure discards the entry; missing entry -> None; removal tolerates ENOENT/EACCES', floor=5)
+    cands = [c for f_ in py.methods('cachestore', 'CacheStore').values() for c in P.calls_in(f_) if P.call_name(c) == 'pickle.load' and c.lineno == pl[0].line]
+    if len(cands) != 1:
+        raise AnalysisError('load: pickle.load call site not located')
+    pnode = cands[0]
     tr = None
-    n = P.parent(pl[0])
-    while n is not None and n is not load:
-        if isinstance(n, ast.Try) and any(pl[0] is x for b in n.body for x in ast.walk(b)):
+    n = P.parent(pnode)
+    while n is not None and not isinstance(n, (ast.FunctionDef,)):
+        if isinstance(n, ast.Try) and any(pnode is x for b_ in n.body for x in ast.walk(b_)):
             tr = n
             break
         n = P.parent(n)
     if tr is None:
-        r3.fail('pickle.load guarded', rel, pl[0].lineno, 'pickle.load is not inside try/except: a broken entry raises')
+        r3.fail('pickle.load guarded', rel, pl[0].line, 'pickle.load is not inside try/except: a broken entry raises')
     else:
         types = [t for h in tr.handlers for t in handler_types(h, m, py)]
         r3.check(any(t in ('Exception', 'BaseException', '<bare>') for t in types), 'pickle.load guarded by except Exception', rel, tr.lineno,
                  'unpickling is guarded only by %s: a damaged entry can raise anything (AttributeError, ImportError, '
                  'UnicodeDecodeError, ValueError, IndexError ...), so a narrower handler lets corrupt entries abort the scan' % types,
                  detail=types)
-        for h in tr.handlers:
-            body = [P.src(s) for s in h.body]
-            rmv = any(s.startswith('self._remove_filename(') for s in body)
-            none = any(s.endswith('= None') or s in ('return None', 'return') for s in body)
-            r3.check(rmv and none, 'broken entry removed and ignored', rel, h.lineno, 'handler body: %s' % body)
-    # open failure
-    otry = [n for n in P.walk_no_nested(load) if isinstance(n, ast.Try) and any(opn[0][2] is s for s in n.body)]
-    ok = False
-    if otry:
-        for h in otry[0].handlers:
-            for s in ast.walk(h):
-                if isinstance(s, ast.Return) and any('errno.ENOENT' in x.text() for x in P.guards(s)):
-                    ok = P.src(s.value) in ('None',) if s.value is not None else True
-    r3.check(ok, 'missing entry -> None', rel, load.lineno, 'open() failing with ENOENT does not make load return None')
-    # _remove_filename tolerance
+        EXC = r'^@except:(Exception|BaseException)?$'
+        rmv = [e for e in lc if e.target == 'self._remove_filename' and gsa.impossible(LD, e, [(EXC, False)])]
+        got = gsa.returns_under(LD, gsa.decide_by([(EXC, True), (VALID, True), (r'^@except:\(', False), (r' is None$', False)]))
+        r3.check(bool(rmv) and [g[0] for g in got] == ['None'], 'broken entry removed and ignored', rel, tr.lineno,
+                 'after a failed unpickling: removals %s, load returns %s' % ([e.value for e in rmv], [g[0][:60] for g in got]))
+    got = gsa.returns_under(LD, gsa.decide_by([(r'^@except:\(?(IOError|OSError|FileNotFoundError|EnvironmentError)', True), (r'errno == errno\.ENOENT$', True), (r'^self\._get_filename\(.*\) is None$', False)]))
+    r3.check([g[0] for g in got] == ['None'], 'missing entry -> None', rel, load.lineno, 'open() failing with ENOENT makes load return %s' % [g[0][:60] for g in got])
     tol = set()
     for n in ast.walk(rm):
         if isinstance(n, ast.Compare) and 'errno' in P.src(n):
-            for a in ast.walk(n):
-                if isinstance(a, ast.Attribute) and P.src(a).startswith('errno.'):
-                    tol.add(a.attr)
+            for a_ in ast.walk(n):
+                if isinstance(a_, ast.Attribute) and P.src(a_).startswith('errno.'):
+                    tol.add(a_.attr)
     r3.check({'ENOENT', 'EACCES'} <= tol, 'removal tolerates concurrent removal / read-only dir', rel, rm.lineno,
              '_remove_filename tolerates only %s' % sorted(tol), detail=sorted(tol))
-    # load's data is returned as read
-    lrets = [P.src(n.value) if n.value is not None else 'None' for n in P.walk_no_nested(load) if isinstance(n, ast.Return)]
-    dvar = [t.id for t, v, st in P.stores_in(load) if v is pl[0] and isinstance(t, ast.Name)]
-    r3.check(dvar and set(lrets) <= {'None', dvar[0]}, 'load returns the unpickled object or None', rel, load.lineno, 'returns: %s' % lrets)
+    lrets = sorted(set(gsa._unparse(n) for g, n in LD.returns))
+    r3.check(set(lrets) <= {'None', pl[0].value}, 'load returns the unpickled object or None', rel, load.lineno, 'returns: %s' % lrets)
 
     # --------------------------------------------------------------- R4 version change purges
     r4 = ctx.rule('R4', 'scanner version change: purge dominates publishing the new stamp; purge removes everything but the stamp', floor=5)
-    cfg = pycfg.CFG(ccv)
-    cl = [c for c in P.calls_in(ccv) if P.call_name(c) == 'self._clean']
-    mv = [c for c in P.calls_in(ccv) if P.call_name(c) in ('shutil.move', 'os.rename', 'os.replace')]
+    CV4 = gsa.summarise(ctx, 'cachestore', 'CacheStore._check_cache_version', opaque=OPQ)
+    c4 = [e for e in CV4.effects if e.kind == 'call']
+    cl = [e for e in c4 if e.target == 'self._clean']
+    mv = [e for e in c4 if e.target in ('shutil.move', 'os.rename', 'os.replace')]
     if len(cl) != 1 or len(mv) != 1:
         raise AnalysisError('_check_cache_version: expected one self._clean() and one move')
-    r4.check(cfg.dominates(cfg.node_of(cl[0]), cfg.node_of(mv[0])) and not cfg.reaches(cfg.node_of(mv[0]), cfg.node_of(cl[0])),
-             'purge before new stamp', rel, cl[0].lineno,
+    r4.check(cl[0].seq < mv[0].seq and gsa.implies(mv[0].cond, cl[0].cond),
+             'purge before new stamp', rel, cl[0].line,
              'the new version stamp can be published before (or without) purging old entries: a crash or a concurrent '
              'scanner between the two leaves old-version entries behind a matching stamp')
-    gs = [x.text() for x in P.guards(cl[0]) if x.kind in ('if', 'early')]
-    r4.check(sorted(gs) == sorted(['not (self._directory is None)', 'not (current_hash == cache_hash)']), 'purge on every mismatch', rel,
-             cl[0].lineno, 'purge is conditional on %s' % gs, detail=gs)
-    # hash read failure semantic: ENOENT -> mismatch
-    ch = [P.src(v) for t, v, st in P.stores_in(ccv) if isinstance(t, ast.Name) and t.id == 'cache_hash']
-    r4.check('version_file.read()' in ch and len(ch) == 2, 'stored stamp compared as read', rel, ccv.lineno, 'cache_hash = %s' % ch)
-    cur = [P.src(v) for t, v, st in P.stores_in(ccv) if isinstance(t, ast.Name) and t.id == 'current_hash']
-    wr = [P.src(c) for c in P.calls_in(ccv) if isinstance(c.func, ast.Attribute) and c.func.attr == 'write']
-    r4.check(cur == ['_get_versionhash()'] and wr == ['tmp_file.write(current_hash)'], 'stamp written = stamp compared', rel, ccv.lineno,
-             'current=%s written=%s' % (cur, wr))
-    # _clean
-    loops = [n for n in P.walk_no_nested(clean) if isinstance(n, ast.For)]
-    ok = len(loops) == 1 and P.src(loops[0].iter) == 'os.listdir(self._directory)'
+    HASHEQ = r'_get_versionhash\(\)'
+    eqs = [a_ for a_ in gsa.atoms(cl[0].cond) if re.search(HASHEQ, a_) and ' == ' in a_]
+    okp = bool(eqs) and gsa.impossible(CV4, cl[0], [(r'^self\._directory is None$', True)]) and not gsa.can_hold(cl[0].cond, dict((a_, True) for a_ in eqs)) and \
+        gsa.can_hold(gsa.assign(cl[0].cond, {'self._directory is None': False}), dict((a_, False) for a_ in eqs))
+    extra = [a_ for a_ in gsa.atoms(cl[0].cond) if a_ not in eqs and not a_.startswith('@except') and not re.search(r'errno|_directory is None', a_)]
+    r4.check(okp and not extra, 'purge on every mismatch', rel, cl[0].line, 'purge happens when %s' % cl[0].when()[:300], detail=cl[0].when()[:300])
+    r4.check(any(re.search(r'\.read\(\)', a_) for a_ in eqs), 'stored stamp compared as read', rel, CV4.func.lineno, 'comparisons: %s' % eqs)
+    wr = [e for e in c4 if e.target.endswith('.write')]
+    r4.check(len(wr) == 1 and wr[0].args == ['_get_versionhash()'] and all('_get_versionhash()' in a_ for a_ in eqs), 'stamp written = stamp compared', rel, CV4.func.lineno,
+             'written=%s compared=%s' % ([e.args for e in wr], eqs))
+    CL = gsa.summarise(ctx, 'cachestore', 'CacheStore._clean', opaque=OPQ)
+    rmc = [e for e in CL.effects if e.kind == 'call' and e.target == 'self._remove_filename']
+    ok = len(rmc) == 1 and rmc[0].loops == ('os.listdir(self._directory)',)
     if ok:
-        lp = loops[0]
-        conts = [n for n in ast.walk(lp) if isinstance(n, (ast.Continue, ast.Break, ast.Return))]
-        okc = len(conts) == 1 and [x.text() for x in P.guards(conts[0], stop=lp) if x.kind == 'if'] == ['%s == _CACHE_VERSION_FILENAME' % lp.target.id]
-        rmc = [c for c in ast.walk(lp) if isinstance(c, ast.Call) and P.call_name(c) == 'self._remove_filename']
-        ok = okc and len(rmc) == 1 and P.src(rmc[0].args[0]) == 'os.path.join(self._directory, %s)' % lp.target.id
-    r4.check(ok, 'purge removes every entry except the stamp', rel, clean.lineno, '_clean does not remove every file but the version stamp')
+        e = rmc[0]
+        mm = re.match(r'^os\.path\.join\(self\._directory, (\w+)\)$', e.args[0] if e.args else '')
+        ok = bool(mm)
+        if ok:
+            STAMP = r'^%s == _CACHE_VERSION_FILENAME$' % mm.group(1)
+            want = gsa.conj(*[gsa.atom(a_) for a_ in gsa.atoms(e.cond) if a_.startswith('@iter:')] + [gsa.neg(gsa.atom('%s == _CACHE_VERSION_FILENAME' % mm.group(1)))])
+            ok = gsa.equiv(e.cond, want)
+    r4.check(ok, 'purge removes every entry except the stamp', rel, clean.lineno, '_clean does not remove every file but the version stamp: %s' % [(e.value, e.when()[:120]) for e in rmc])
     init = py.func('cachestore', 'CacheStore.__init__')
     r4.check([P.src(s) for s in init.body][-1] == 'self._check_cache_version()', 'version checked on construction', rel, init.lineno,
              'CacheStore.__init__ does not end with the version check')
@@ -269,30 +242,25 @@ def check(ctx):
     # --------------------------------------------------------------- R5 transparency at the call site
     r5 = ctx.rule('R5', 'cache hit/miss controls only parse+store; cache bypassed when parse mode differs', floor=4)
     tm = py.mod('transformer')
+    from . import c16
     pi = py.func('transformer', 'Transformer._parse_include')
-    ld = [c for c in P.calls_in(pi) if isinstance(c.func, ast.Attribute) and c.func.attr == 'load' and 'cachestore' in P.src(c.func)]
-    stc = [c for c in P.calls_in(pi) if isinstance(c.func, ast.Attribute) and c.func.attr == 'store' and 'cachestore' in P.src(c.func)]
-    if len(ld) != 1 or len(stc) != 1:
+    groups, PI = c16.parse_include_groups(ctx)
+    fparam = PI.P(1)
+    ld = [e for e in PI.effects if e.kind == 'call' and e.target == 'self._cachestore.load']
+    stc = [e for e in PI.effects if e.kind == 'call' and e.target == 'self._cachestore.store']
+    if len(ld) < 1 or len(stc) < 1:
         raise AnalysisError('_parse_include: cache load/store calls not found')
-    lst = P.enclosing_stmt(ld[0])
-    pv = lst.targets[0].id if isinstance(lst, ast.Assign) and isinstance(lst.targets[0], ast.Name) else None
-    r5.check(pv is not None and P.src(ld[0].args[0]) == P.src(stc[0].args[0]) == pi.args.args[1].arg, 'load/store keyed by the same file', tm.rel,
-             lst.lineno, 'load(%s) / store(%s)' % (P.src(ld[0].args[0]), P.src(stc[0].args[0])))
-    r5.check(P.src(stc[0].args[1]) == pv, 'stored object is the freshly parsed one', tm.rel, stc[0].lineno, 'store(..., %s)' % P.src(stc[0].args[1]))
-    # statements control dependent on `<pv> is None`
-    dep = []
-    for n in P.walk_no_nested(pi):
-        if isinstance(n, ast.stmt) and not isinstance(n, (ast.If, ast.For, ast.While, ast.Try, ast.With)):
-            if any(x.kind in ('if', 'early') and '%s is None' % pv in x.text() for x in P.guards(n)):
-                dep.append(n)
-    texts = [P.src(s) for s in dep]
-    allowed = lambda s: s.startswith('%s = GIRParser(' % pv) or s == '%s.parse(%s)' % (pv, pi.args.args[1].arg) or s.startswith('self._cachestore.store(')
-    r5.check(dep and all(allowed(s) for s in texts) and any(s.startswith('%s = GIRParser(' % pv) for s in texts) and
-             any(s == '%s.parse(%s)' % (pv, pi.args.args[1].arg) for s in texts), 'only parse+store depend on hit/miss', tm.rel, pi.lineno,
-             'statements depending on cache hit/miss: %s' % texts, detail=texts)
+    r5.check(all(e.args[:1] == [fparam] for e in ld + stc), 'load/store keyed by the same file', tm.rel, ld[0].line, 'load(%s) / store(%s)' % ([e.args[:1] for e in ld], [e.args[:1] for e in stc]))
+    r5.check(all(len(e.args) > 1 and e.args[1].startswith('GIRParser(') for e in stc), 'stored object is the freshly parsed one', tm.rel, stc[0].line, 'store(..., %s)' % [e.args[1:2] for e in stc])
+    dep = sorted(k for k, c in groups.items() if c16.depends_on(c, r'_cachestore'))
+    okd = bool(dep) and all(k[1] in ('GIRParser', 'PARSER.parse', 'self._cachestore.store', 'self._cachestore.load') for k in dep) and \
+        {'GIRParser', 'PARSER.parse', 'self._cachestore.store'} <= set(k[1] for k in dep)
+    r5.check(okd, 'only parse+store depend on hit/miss', tm.rel, pi.lineno, 'effects depending on cache hit/miss: %s' % [k[1] for k in dep], detail=[k[1] for k in dep])
+    pparse = [e for e in PI.effects if e.kind == 'call' and e.target.endswith('.parse') and e.target.startswith('GIRParser(')]
+    r5.check(bool(pparse) and all(e.args[:1] == [fparam] for e in pparse), 'a miss parses the requested file', tm.rel, pi.lineno, 'parse calls: %s' % [e.value[:80] for e in pparse])
     # parse mode vs cache: GIRParser(types_only=<expr over self._passthrough_mode>): entries do not record the mode, so every
     # place that flips the mode of a transformer that emits GIR must also disable the cache
-    mode_dep = [c for c in P.calls_in(pi) if P.call_name(c) == 'GIRParser' and any('_passthrough_mode' in P.src(k.value) for k in c.keywords)]
+    mode_dep = [e for e in PI.effects if e.kind == 'call' and e.target == 'GIRParser' and '_passthrough_mode' in e.value]
     sm = py.mod('scannermain')
     flips = []
     for n in ast.walk(sm.tree):
